@@ -973,7 +973,7 @@ pub fn run(ctx: &RunCtx, flavor: Flavor) -> Report {
                     0 => {
                         let variant = r.below(8);
                         let v = match variant {
-                            0 => vec![5u8; 1001],
+                            0 => vec![5u8; *r.pick(&[1001usize, 1001, 1002, 1024, 1280, 1600])],
                             _ => imm_values[r.usize(0, imm_values.len() - 1)].clone(),
                         };
                         let mut target = krpc::immutable_target(&v);
@@ -1021,12 +1021,14 @@ pub fn run(ctx: &RunCtx, flavor: Flavor) -> Report {
                         };
                         let mut l = String::from("valid");
                         if variant == 0 {
-                            v = vec![1u8; 1001];
-                            l = "v=1001".into();
+                            v = vec![1u8; *r.pick(&[1001usize, 1001, 1002, 1024, 1280, 1500])];
+                            l = format!("v={}", v.len());
                         } else if variant == 1 {
-                            salt = Some(vec![b'x'; 65]);
+                            // over-long salts: just over the limit, and lengths whose low byte is small again
+                            let n = *r.pick(&[65usize, 65, 66, 128, 255, 256, 257, 300, 320, 321, 512]);
+                            salt = Some(vec![b'x'; n]);
                             target = krpc::mutable_target(&pk, salt.as_deref());
-                            l = "salt=65".into();
+                            l = format!("salt={n}");
                         }
                         let mut item = Item::signed(key, salt.as_deref(), seq, &v);
                         if variant == 2 {
